@@ -423,6 +423,10 @@ func (p *Proxy) handleConnectRequest(ctx *Context, req *http.Request, session *S
 			log.Infof("martian: connection hijacked by response modifier")
 			return errClose
 		}
+		if p.Closing() {
+			// No further request is read from this connection: say so.
+			res.Close = true
+		}
 
 		if err := res.Write(brw); err != nil {
 			log.Errorf("martian: got error while writing response back to client: %v", err)
